@@ -10,7 +10,11 @@ reuse the same Python `Expr` objects in several posted inequalities (operators a
 0 / 0.0 / an empty `Expr` / each other) and in `evalexpr`; the direct semantics always uses the ORIGINAL definitions,
 and the objects must keep their contents (`operand_mutated`).  Histories frequently post a constraint again or post
 a cofactor of an earlier inequality (its largest-coefficient variable fixed to 0 / 1), in the same and in other
-managers, so that the root of a later diagram is an inner node of an earlier one.  `Ineq.isclause` is compared on its own stream.
+managers, so that the root of a later diagram is an inner node of an earlier one.  `Ineq.isclause` (and the printed form
+`tostr()` after it) is compared on its own stream.  Session stream: 15–40 histories run one after the other on ONE store that
+is never reset (fresh managers per history, rect-like objectives with weights up to 1e3 against a moving bound); per history the
+nodes appended to the store are compared and the old part of the store must be untouched.  Names stream: `newvar(name, pre)`
+with every prefix / name type against the model's `newvarPy` / `classify`.
 
 Spec on implementation: for each manager, every assignment of its (≤ 12) user variables is pushed as unit assumptions to
 the real pysat solver on the real clauses and compared with direct evaluation (Python integers) of the constraints that
@@ -36,6 +40,9 @@ TRUSTED = [
     "the SAT solver (pysat / Minisat22): its answer is a parameter of the model's `solve`; `solve_sound` assumes it is correct",
     "memo of constructrobdd is keyed by serdat(data) in Python and by the data in the model: equal as long as variable names contain no ',' and do not start with '-'",
     "the model has no recursion limit: CPython refuses (RecursionError inside getrobdd, before anything is posted) an inequality whose diagram is deeper than the interpreter's recursion limit (about 990 distinct variables by default); `encoding_ge_accepted` / `getRobdd_sem` speak about sizes below that limit",
+    "variable names: the model's variables are read from / printed as Python name strings by classify / Var.chars (FV/Model/Sat.lean; "
+    "one-to-one: theorem names_faithful; default-prefix names are always user variables: newvar_default_prefix_user); str() of the name "
+    "argument of newvar is taken from Python",
     "harness (Python) and compiled Lean driver: parsing, printing, canonicalisation, comparison",
 ]
 
@@ -174,8 +181,9 @@ def store_invariant_problem():
 class Impl:
     """runs a history on the real classes; records op results, posted constraints and solver answers"""
 
-    def __init__(self, nm: int):
-        reset_store()
+    def __init__(self, nm: int, reset: bool = True):
+        if reset:
+            reset_store()
         self.mgrs = [SATManager() for _ in range(nm)]
         self.posted = [[] for _ in range(nm)]
         self.users = [[] for _ in range(nm)]
@@ -744,6 +752,223 @@ def run_history(ctx: Ctx, h, reqs, todo, stream="hist") -> None:
     ctx.count("uservars:max%d" % max(len(u) for u in im.users))
 
 
+# ---- session stream: many histories, one store that is NEVER reset in between (what a process running rect.py does:
+#      a new SATManager per `solve` call, all of them appending to pseudobool.memory / mmap)
+def dump_store_from(k: int) -> str:
+    mem = pb.memory[k:]
+    items = list(pb.mmap.items())[max(0, k - 2):]
+    out = [str(k), str(len(mem))]
+    for n in mem:
+        out += ["L", str(n)] if isinstance(n, int) else ["N", str(n[0]), str(n[1]), str(n[2])]
+    out.append(str(len(items)))
+    for key, v in items:
+        out += [str(key[0]), str(key[1]), str(key[2]), str(v)]
+    return " ".join(out)
+
+
+def gen_rect_like(rng, i, names, weights, bound_frac):
+    """the objective `ratio·selarea − realarea >= dif` of tools/rect/rect.py: one signed weight (|w| up to ~1e3) per cell
+    variable, the same weights in every history of the session, a bound that moves from history to history"""
+    lt = [(weights[k], v, 1) for k, v in enumerate(names) if k < len(weights) and weights[k] != 0]
+    lo = sum(c for (c, _, _) in lt if c < 0)
+    hi = sum(c for (c, _, _) in lt if c > 0)
+    bound = int(lo + (hi - lo) * bound_frac) + rng.choice([0, 0, 1, -1])
+    return ("pb", i, rng.random() < 0.25, ">=", lt, 0, [], bound)
+
+
+def gen_session(rng, nh: int, large: bool = False):
+    nw = 12
+    style = rng.random()
+    if style < 0.4:       # ratio·sel − real with areas up to 1e3
+        weights = [2 * rng.randint(0, 500) - rng.randint(1, 1000) for _ in range(nw)]
+    elif style < 0.7:     # few distinct magnitudes (a uniform grid): many equal coefficients
+        base = rng.choice([100, 250, 625, 1000])
+        weights = [rng.choice([base, base, -base, 2 * base, base // 2]) for _ in range(nw)]
+    else:
+        weights = [rng.choice([1, -1]) * rng.randint(100, 1000) for _ in range(nw)]
+    hs = []
+    for j in range(nh):
+        h = gen_history(rng, big=(large and j == nh // 2))
+        if rng.random() < 0.7:
+            first = next((t for t, o in enumerate(h["ops"]) if o[0] not in ("nv", "ex")), len(h["ops"]))
+            names0 = [o[2] for o in h["ops"][:first] if o[0] == "nv" and o[1] == 0]   # registered up front
+            nvars = len(names0) if large else min(len(names0), 9)
+            if nvars >= 3:
+                op = gen_rect_like(rng, 0, names0[:nvars], weights, (j + 1) / (nh + 1) if rng.random() < 0.7 else rng.random())
+                h["ops"].insert(rng.randint(first, len(h["ops"])), list(op))
+                if rng.random() < 0.3:      # the same objective against the next bound, in the same manager
+                    op2 = gen_rect_like(rng, 0, names0[:nvars], weights, (j + 2) / (nh + 1))
+                    h["ops"].insert(rng.randint(first, len(h["ops"])), list(op2))
+        hs.append(h)
+    return {"histories": hs}
+
+
+def run_session(ctx: Ctx, sess, reqs, todo, stream="session") -> None:
+    reset_store()
+    inp = {"session": sess}
+    segs, wires = [], []
+    sz = sum(len(h["ops"]) for h in sess["histories"])
+    for j, h in enumerate(sess["histories"]):
+        nm = h["nm"]
+        k0 = len(pb.memory)
+        before_mem, before_mm = list(pb.memory), list(pb.mmap.items())
+        im = Impl(nm, reset=False)
+        im.bad = list(h.get("bad", [False] * nm))
+        wire = []
+        for o in h["ops"]:
+            wo = im.step(norm_op(o))
+            if wo is not None:
+                wire.append(w_op(wo))
+        for i in range(nm):
+            im.check_exact(i)
+        prob = store_invariant_problem()
+        if prob:
+            im.problems.append(("store_invariant", {"problem": prob}))
+        if pb.memory[:k0] != before_mem or list(pb.mmap.items())[:len(before_mm)] != before_mm:
+            im.problems.append(("store_append_only", {"history": j, "nodes_before": k0}))
+        for clause, detail in im.problems:
+            ctx.spec_fail(clause, inp, dict(detail, history_index=j), size=sz)
+        segs.append(" ".join(im.results) + "".join(" | " + dump_mgr(m) for m in im.mgrs) + " | " + dump_store_from(k0))
+        wires.append(f"{nm} {len(wire)} " + " ".join(wire))
+        for o in h["ops"]:
+            ctx.count("op:" + o[0])
+    reqs.append(f"P sess {len(wires)} " + " ".join(wires))
+    todo.append(("sess", inp, " || ".join(segs), sz))
+    ctx.case(stream, reqs[-1], nontrivial=True, sample={"histories": len(segs), "store_nodes": len(pb.memory)})
+    n = len(pb.memory)
+    ctx.count("session-store-nodes:%s" % ("<100" if n < 100 else "100-999" if n < 1000 else "1000-4999" if n < 5000 else "5000+"))
+    ctx.count("session-histories:%d+" % (10 * (len(segs) // 10)))
+
+
+def _cumulative(seg_store: str, mem, mm) -> None:
+    """append the suffix `k n nodes… n items…` of one segment to the cumulative store"""
+    t = Toks(seg_store)
+    k = t.nat()
+    if k != len(mem):
+        raise ValueError("suffix does not start where the store ended")
+    for _ in range(t.nat()):
+        if t.tok() == "L":
+            mem.append(int(t.tok()))
+        else:
+            mem.append((t.tok(), t.nat(), t.nat()))
+    for _ in range(t.nat()):
+        key = (t.tok(), t.nat(), t.nat())
+        mm[key] = t.nat()
+
+
+def _store_str(mem, mm) -> str:
+    out = [str(len(mem))]
+    for n in mem:
+        out += ["L", str(n)] if isinstance(n, int) else ["N", str(n[0]), str(n[1]), str(n[2])]
+    out.append(str(len(mm)))
+    for key, v in mm.items():
+        out += [str(key[0]), str(key[1]), str(key[2]), str(v)]
+    return " ".join(out)
+
+
+def compare_session(ctx: Ctx, inp, impl: str, model: str, sz: int) -> None:
+    if impl == model:
+        return
+    a, b = impl.split(" || "), model.split(" || ")
+    if len(a) != len(b) or model == "bad-op":
+        ctx.disagree("sess", inp, impl[:1500], model[:1500], size=sz)
+        return
+    # first history that differs; equal up to node numbering / clause order is drift, not a disagreement
+    ma, mma, mb, mmb = [0, 1], {}, [0, 1], {}
+    for j, (x, y) in enumerate(zip(a, b)):
+        px, py = x.split(" | "), y.split(" | ")
+        try:
+            if j == 0:
+                ma, mma, mb, mmb = [], {}, [], {}
+                # the first suffix starts at 2: the two leaves are part of the initial store
+                ma, mb = [0, 1], [0, 1]
+            _cumulative(px[-1], ma, mma)
+            _cumulative(py[-1], mb, mmb)
+        except Exception:
+            ctx.disagree("sess", dict(inp, history_index=j), x[:1500], y[:1500], size=sz)
+            return
+        if x == y:
+            continue
+        if len(px) != len(py) or px[0].split() != py[0].split():
+            ctx.disagree("sess", dict(inp, history_index=j), x[:1500], y[:1500], size=sz)
+            return
+        try:
+            table = {}
+            ca = canon_state(px[1:-1], _store_str(ma, mma), table)
+            cb = canon_state(py[1:-1], _store_str(mb, mmb), table)
+        except Exception:
+            ctx.disagree("sess", dict(inp, history_index=j), x[:1500], y[:1500], size=sz)
+            return
+        if ca != cb:
+            ctx.disagree("sess", dict(inp, history_index=j), x[:1500], y[:1500], size=sz)
+            return
+    ctx.drift += 1
+
+
+# ---- names stream: newvar(name, pre) with every prefix / name type
+import re
+_RESERVED = [(re.compile(r"^robdd_(0|[1-9][0-9]*)$"), "n"), (re.compile(r"^aux_(0|[1-9][0-9]*)$"), "a")]
+
+
+def name_kind(v: str) -> str:
+    """independent reading of a variable name: node / auxiliary (exactly what str() prints for an int ≥ 0) / user"""
+    for rx, k in _RESERVED:
+        mm = rx.match(v)
+        if mm and v.isascii():
+            return k + str(int(mm.group(1)))
+    return "u"
+
+
+def gen_names(rng):
+    calls = []
+    for _ in range(rng.randint(1, 12)):
+        r = rng.random()
+        pre = "def_" if r < 0.35 else "" if r < 0.55 else "robdd_" if r < 0.7 else "aux_" if r < 0.8 else \
+            rng.choice(["b0_", "b1_x_", "robdd", "aux", "r", "a", "ROBDD_", "robdd__", "aux_0", "def_robdd_", "x-"])
+        r = rng.random()
+        if r < 0.30:
+            name = rng.choice([0, 1, 2, 7, 10, 17, 100, 120, 999, 1000, 12345678901234567890, -1, -7])
+        elif r < 0.40:
+            name = rng.choice([0.0, 1.0, 2.5, -0.5, 1e16, 1e-5, 3.0])
+        elif r < 0.70:
+            name = rng.choice(["x", "y", "x0", "b_3", "7", "07", "007", "0", "00", "1_0", "robdd_7", "aux_2", "robdd_07", "_7",
+                               "obdd_7", "ux_3", "7 ".strip(), "+7", "٧", "x,y", "-x", "north", "3.0", ""])
+        else:
+            name = rng.choice(["", "robdd_", "aux_"]) + str(rng.randint(0, 30))
+        calls.append([pre, name, rng.random() < 0.5])
+    return {"calls": calls}
+
+
+def run_names(ctx: Ctx, case, reqs, todo) -> None:
+    inp = {"names": case}
+    m = SATManager()
+    out, wire = [], []
+    for pre, name, default in case["calls"]:
+        try:
+            # the default prefix is exercised both by omitting the argument and by passing it
+            lit = m.newvar(name) if (default and pre == "def_") else m.newvar(name, pre)
+        except Exception as e:
+            ctx.spec_fail("operation-raised", inp, {"newvar raised": repr(e)[:200]}, size=len(case["calls"]))
+            return
+        want = pre + str(name)
+        if lit.v != want or lit.s is not True:
+            ctx.spec_fail("newvar_name", inp, {"pre": pre, "name": repr(name), "literal": [lit.v, lit.s]}, size=len(case["calls"]))
+        if m.ttable.get(lit.v) is None or m.vtable[m.ttable[lit.v]] != lit.v:
+            ctx.spec_fail("newvar_registers", inp, {"pre": pre, "name": repr(name)}, size=len(case["calls"]))
+        if pre == "def_" and name_kind(lit.v) != "u":
+            ctx.spec_fail("newvar_default_prefix_user", inp, {"name": repr(name), "vname": lit.v}, size=len(case["calls"]))
+        out.append(f"{lit.v}:{int(lit.s)}:{name_kind(lit.v)}")
+        wire.append(f"p:{pre} n:{name}")
+    if len(set(m.vtable[1:])) != len(m.vtable) - 1 or m.tcount != len(m.vtable):
+        ctx.spec_fail("newvar_registers_once", inp, {"vtable": m.vtable}, size=len(case["calls"]))
+    impl = " ".join(out) + f" | {len(m.vtable) - 1}" + "".join(" " + v for v in m.vtable[1:])
+    reqs.append(f"P names {len(wire)} " + " ".join(wire))
+    todo.append(("names", inp, impl, len(case["calls"])))
+    ctx.case("names", reqs[-1], nontrivial=len(case["calls"]) >= 2)
+    for o in out:
+        ctx.count("name-kind:" + o.rsplit(":", 1)[1][0])
+
+
 # ---- isclause stream
 def run_isclause(ctx: Ctx, case, reqs, todo) -> None:
     o, lt, lc, rt, rc = case["op"], [tuple(t) for t in case["lt"]], case["lc"], [tuple(t) for t in case["rt"]], case["rc"]
@@ -774,6 +999,14 @@ def run_isclause(ctx: Ctx, case, reqs, todo) -> None:
             ctx.spec_fail("operation-raised", inp, {"raised": repr(e)[:200]}, size=len(lt) + len(rt))
     reqs.append(f"P isclause {o} {w_expr(lt, lc)} {w_expr(rt, rc)}")
     todo.append(("isclause", inp, impl, len(lt) + len(rt)))
+    if not impl.startswith("err"):      # the printed form after isclause() (the clause, when there is one)
+        try:
+            txt = q.tostr()
+        except Exception as e:
+            txt = "err:" + type(e).__name__
+            ctx.spec_fail("operation-raised", inp, {"tostr raised": repr(e)[:200]}, size=len(lt) + len(rt))
+        reqs.append(f"P qtostr {o} {w_expr(lt, lc)} {w_expr(rt, rc)}")
+        todo.append(("qtostr", inp, txt, len(lt) + len(rt)))
     ctx.case("isclause", reqs[-1], nontrivial=len(lt) + len(rt) >= 2)
     ctx.count("isclause:" + (impl.split()[2] if not impl.startswith("err") else impl))
 
@@ -788,6 +1021,15 @@ def compare(ctx: Ctx, todo, replies) -> None:
     for (kind, inp, impl, sz), model in zip(todo, replies):
         if kind == "hist":
             compare_hist(ctx, inp, impl, model, sz)
+        elif kind == "sess":
+            compare_session(ctx, inp, impl, model, sz)
+        elif kind == "qtostr":
+            def norm(t):     # the order of the literals inside a printed clause is not part of the property
+                if t.endswith(" >= 1") and " + " in t and all(x.startswith("1 ") for x in t[:-5].split(" + ")):
+                    return " + ".join(sorted(t[:-5].split(" + "))) + " >= 1"
+                return t
+            if norm(impl) != norm(model):
+                ctx.disagree("tostr", inp, impl, model, size=sz)
         else:
             m = model
             if " clause " in model:   # literal order inside the clause is not part of the property
@@ -858,7 +1100,16 @@ def run(ctx: Ctx) -> None:
                 "constructions) / solve + value + evalexpr; store reset to [0,1] at the start of each history so that node ids "
                 "are comparable; non-trivial = contains a pseudo-Boolean or at-most-one posting; distinct = distinct request; "
                 "isclause stream: the same constraint generator; 5% of the inequalities carry area-like coefficients 1000…10000; "
-                "12 long histories (60–150 operations over one never-reset store); large stream: at-most-one over 1200 (k=3) and "
+                "12 long histories (60–150 operations over one never-reset store); session stream: 8 (thorough 80) sessions of 15–40 "
+                "histories each (fresh managers per history, 1–3 at a time) run one after the other on ONE store that is never reset — as a "
+                "process running rect.py does, one SATManager per solve call — with a rect-like objective (one signed weight of "
+                "magnitude up to 1e3 per variable, fixed for the session, against a bound that moves from history to history) in 70% of "
+                "the histories; every fourth session has a 10–12 variable history in the middle (stores of thousands of nodes); per history "
+                "names stream: 1–12 newvar(name, pre) calls on one manager with the default prefix (omitted or passed), the empty "
+                "prefix, the reserved prefixes robdd_ / aux_ and look-alikes, names that are ints (incl. negative, 20 digits), floats and "
+                "strings (incl. '07', '1_0', 'robdd_7', non-ASCII digits, ''): returned literal, registration, collisions and the reading "
+                "of each name as node / auxiliary / user variable compared with the model's newvarPy / classify; "
+                "the op results, managers and the nodes APPENDED to the store are compared, and the old part of the store must be untouched; large stream: at-most-one over 1200 (k=3) and "
                 "1500 (k=5) literals, a 1200-term inequality")
     ctx.assumptions += [
         "user variable names do not start with 'robdd_' / 'aux_', contain no ',' and do not start with '-' (all names generated here are def_*)",
@@ -870,6 +1121,10 @@ def run(ctx: Ctx) -> None:
     for s in getattr(ctx, "seed_inputs", []) or []:
         if isinstance(s, dict) and "history" in s:
             run_history(ctx, s["history"], reqs, todo, "seed")
+        elif isinstance(s, dict) and "session" in s:
+            run_session(ctx, s["session"], reqs, todo, "seed")
+        elif isinstance(s, dict) and "names" in s:
+            run_names(ctx, s["names"], reqs, todo)
         elif isinstance(s, dict) and "isclause" in s:
             run_isclause(ctx, s["isclause"], reqs, todo)
     n = ctx.n(1500, 25000)
@@ -877,7 +1132,11 @@ def run(ctx: Ctx) -> None:
         run_history(ctx, gen_history(ctx.rng, big=(j % 40 == 7)), reqs, todo)
     for _ in range(ctx.n(12, 150)):
         run_history(ctx, gen_history(ctx.rng, big=False, long=True), reqs, todo, "long")
+    for j in range(ctx.n(8, 80)):
+        run_session(ctx, gen_session(ctx.rng, ctx.rng.randint(15, 40), large=(j % 4 == 3)), reqs, todo)
     large_cases(ctx, reqs, todo)
+    for _ in range(ctx.n(1500, 30000)):
+        run_names(ctx, gen_names(ctx.rng), reqs, todo)
     for _ in range(ctx.n(5000, 100000)):
         run_isclause(ctx, gen_isclause(ctx.rng), reqs, todo)
     if ctx.tier == "thorough" and ctx.budget <= 1.0:
@@ -895,6 +1154,10 @@ def replay(ctx: Ctx, body: dict) -> None:
     inp = body["input"]
     if "history" in inp:
         run_history(ctx, inp["history"], reqs, todo)
+    elif "session" in inp:
+        run_session(ctx, inp["session"], reqs, todo)
+    elif "names" in inp:
+        run_names(ctx, inp["names"], reqs, todo)
     else:
         run_isclause(ctx, inp["isclause"], reqs, todo)
     replies = ctx.model(reqs)
